@@ -132,7 +132,16 @@ static void verify_step(long hist, int step, int cfg, jwt_checker_t *reused, int
 	char mr[80], mf[80];
 	vh_now = odd_clock >= 0 ? (time_t)ODD_CLOCK[odd_clock] : NOW;
 	if (clear) jwt_checker_error_clear(reused);
-	rr = jwt_checker_verify(reused, TOK[tok]);
+	/* the reused checker receives every token in one and the same receive buffer, as a server loop does (what it may remember about an
+	 * earlier token must not be tied to the address the text was at) */
+	if (TOK[tok]) {
+		static char *rbuf; static size_t rcap;
+		size_t need = strlen(TOK[tok]) + 1;
+		if (need > rcap) { size_t m = 0; for (int q = 0; q < NTOK; q++) if (TOK[q] && strlen(TOK[q]) + 1 > m) m = strlen(TOK[q]) + 1; rbuf = realloc(rbuf, m); rcap = m; }
+		memcpy(rbuf, TOK[tok], need);
+		rr = jwt_checker_verify(reused, rbuf);
+	} else
+		rr = jwt_checker_verify(reused, TOK[tok]);
 	er = jwt_checker_error(reused); snprintf(mr, sizeof(mr), "%.64s", jwt_checker_error_msg(reused));
 	rf = jwt_checker_verify(fresh, TOK[tok]);
 	ef = jwt_checker_error(fresh); snprintf(mf, sizeof(mf), "%.64s", jwt_checker_error_msg(fresh));
@@ -268,6 +277,7 @@ int main(int argc, char **argv)
 	vh_args_t a;
 	long hist = 0;
 	vh_parse_args(argc, argv, &a);
+	vh_alloc_install();	/* foreign frees and writes after free, also inside the uninstrumented JSON library */
 	vh_rng_seed(&rng, a.seed, 11);
 	if (vh_key_gen(&K1, "oct:32", &rng) || vh_key_gen(&K2, "oct:48", &rng) || vh_key_gen(&KW, "oct:16", &rng) ||
 	    vh_key_gen(&KEC, "ec:P-256", &rng) || vh_key_gen(&KED, "okp:Ed25519", &rng) || vh_key_gen(&KRSA, "rsa:2048", &rng))
